@@ -132,7 +132,7 @@ func runC03(c *Ctx) {
 			coqBool(cs.Rejected), coqBool(cs.OCSPHits > 0), coqBool(cs.CRLHits > 0), coqBool(cs.OCSP != "noaia")+" "+coqBool(cs.CRL != "none")))
 	}
 	c.WriteCoqSharded("cases_C03", sb.String(), "c03case", items, "mismatches", 96)
-	c.Rep.Cases = len(cases) + c03ChainOfOne(c)
+	c.Rep.Cases = len(cases) + c03ChainOfOne(c) + c03SharedStage(c)
 	c.Rep.Rule = "exhaustive table mode x ocsp scenario x aia_strict x crl scenario x cdp_strict x storage x chain; plus the directly trusted client certificate (verified chain of one) in every mode with a configured CRL that lists it / a strict OCSP responder that is down / nothing; non-trivial = a case in which at least one mechanism has a responder or a CDP to consult; distinct by the full tuple"
 	c.Rep.Extra["exhaustive"] = true
 }
